@@ -1,4 +1,5 @@
 import Iauthd.Proto.Props
+import Iauthd.Proto.RenderHex
 /-
   Property C04 — "Replies affect only the client instance they were asked about" (model part).
 
@@ -8,7 +9,10 @@ import Iauthd.Proto.Props
     leaves the request unchanged and emits nothing;
   * `C04_tag_exact`: a tag validates only for a stored request with exactly that id and serial,
     and the tag reader accepts no number beyond 32 bits (no wrap-around aliasing, F21);
-  * `C04_others`: even an accepted reply changes no other client's record.
+  * `C04_others`: even an accepted reply changes no other client's record;
+  * `C04_tag_readback`: the tag the daemon writes for an instance (`iauth_routing`) reads back
+    (`iauth_validate_request`'s `strtol`/`strtoul`) as exactly that instance's id and serial, for every
+    32-bit id and serial - so no two live instances share a tag.
   The differential judge runs the real daemon with and without stray replies.
 -/
 namespace Iauthd.Properties
@@ -34,5 +38,22 @@ theorem C04_others {s s' : State} {l : Line} {isX : Bool} {out : List Bytes}
     (hne : ∀ r, validateRequest s ((arg l 2).getD []) = some r → id ≠ r.client) :
     findReq s'.reqs id = findReq s.reqs id :=
   onReply_others h id hne
+
+
+/-- the tag written for an instance reads back as that instance, and two instances with the same tag
+    have the same id and serial -/
+theorem C04_tag_readback (r : Req) (h1 : -2147483648 ≤ r.client) (h2 : r.client ≤ 2147483647)
+    (hs : r.serial < 4294967296) : parseTag (routing r) = some (r.client, r.serial) :=
+  parseTag_routing r h1 h2 hs
+
+theorem C04_tag_injective (r r' : Req) (h1 : -2147483648 ≤ r.client) (h2 : r.client ≤ 2147483647)
+    (hs : r.serial < 4294967296) (h1' : -2147483648 ≤ r'.client) (h2' : r'.client ≤ 2147483647)
+    (hs' : r'.serial < 4294967296) (h : routing r = routing r') :
+    r.client = r'.client ∧ r.serial = r'.serial := by
+  have a := parseTag_routing r h1 h2 hs
+  have b := parseTag_routing r' h1' h2' hs'
+  rw [h, b] at a
+  simp only [Option.some.injEq, Prod.mk.injEq] at a
+  exact ⟨a.1.symm, a.2.symm⟩
 
 end Iauthd.Properties
